@@ -1,6 +1,5 @@
-(* C10 for Go, the lexical half: the layout layer for ALL well-formed declarations (struct tags are raw
-   strings: the JSON key must not contain a back-tick), and the whole file for configurations without
-   uppercase_acronyms (partial: the textual acronym replacement of go.rs:579 is not followed through). *)
+(* C10 for Go, the lexical half at the layout layer, for ALL well-formed declarations (struct tags are raw
+   strings: the JSON key must not contain a back-tick; printed types are judged as text). *)
 From Coq Require Import List Bool Lia ZifyBool ZifyN NArith Permutation.
 From TS Require Import Model.Str Model.Outcome Model.Unicode Model.Types Model.Parse Model.Rename Model.TopsortAlgo Model.Topsort
                        Model.Lang.Common Model.Lang.Decl Model.Lang.Go.
